@@ -540,6 +540,8 @@ fn run_drop(c: &[Val]) -> Val {
 
 static CONSTRUCTED: AtomicUsize = AtomicUsize::new(0);
 
+static DURING_LOAD: Mutex<Option<Box<dyn FnOnce() + Send>>> = Mutex::new(None);
+
 struct TagDeser;
 
 impl Deserialize for TagDeser {
@@ -551,6 +553,10 @@ impl Deserialize for TagDeser {
             .and_then(|t| t.as_u64())
             .ok_or_else(|| anyhow::anyhow!("tag appender needs a numeric `tag`"))?;
         CONSTRUCTED.fetch_add(1, Ordering::SeqCst);
+        // kind 6, "edit during load": the configuration file is edited while init_file builds the components
+        if let Some(edit) = DURING_LOAD.lock().unwrap().take() {
+            edit();
+        }
         Ok(Box::new(TagAppender { tag, idx: 0, hook: None, on_drop: None }))
     }
 }
@@ -735,24 +741,36 @@ fn run_live2(c: &[Val], expect: &[Val]) -> Val {
     let fmt = c[1].n();
     let texts = c[2].l();
     let init = c[3].l();
-    let link = c.len() > 6 && c[6].n() == 1;
+    let flags = if c.len() > 6 { c[6].n() } else { 0 };
+    let link = flags & 1 == 1;
+    // flag 2: the FIRST edit of the history is made while init_file is building the components (from inside the
+    // deserializer of the document's appender), i.e. after init_file read the text and before it returns; the
+    // first poll then finds the file as that edit left it
+    let during_load = flags & 2 == 2 && !c[4].l().is_empty();
     let dir = tempfile::tempdir().unwrap();
     let path = dir.path().join(format!("c.{}", ext(fmt)));
-    let mut version = 0usize;
-    let mut edit = |st: &[Val]| {
-        if !link {
-            apply_file(&path, texts, st);
-            return;
-        }
-        version += 1;
-        let target = dir.path().join(format!("v{}.{}", version, ext(fmt)));
-        let _ = std::fs::remove_file(&path);
-        if st[0].n() != 0 {
-            apply_file(&target, texts, st);
-            std::os::unix::fs::symlink(&target, &path).unwrap();
+    let version = Arc::new(AtomicUsize::new(0));
+    let edit = {
+        let (path, dirp, texts, version) = (path.clone(), dir.path().to_path_buf(), texts.to_vec(), version.clone());
+        move |st: &[Val]| {
+            if !link {
+                apply_file(&path, &texts, st);
+                return;
+            }
+            let v = version.fetch_add(1, Ordering::SeqCst) + 1;
+            let target = dirp.join(format!("v{}.{}", v, ext(fmt)));
+            let _ = std::fs::remove_file(&path);
+            if st[0].n() != 0 {
+                apply_file(&target, &texts, st);
+                std::os::unix::fs::symlink(&target, &path).unwrap();
+            }
         }
     };
     edit(&[Val::N(2), init[0].clone(), init[1].clone()]);
+    if during_load {
+        let (e2, st) = (edit.clone(), c[4].l()[0].l().to_vec());
+        *DURING_LOAD.lock().unwrap() = Some(Box::new(move || e2(&st)));
+    }
     let (tx_req, rx_req) = mpsc::channel::<Duration>();
     let (tx_rel, rx_rel) = mpsc::channel::<()>();
     let rx_rel = std::sync::Mutex::new(rx_rel);
@@ -775,8 +793,10 @@ fn run_live2(c: &[Val], expect: &[Val]) -> Val {
             false
         }
     };
-    for (st, ex) in c[4].l().iter().zip(expect.iter()) {
-        edit(st.l());
+    for (n, (st, ex)) in c[4].l().iter().zip(expect.iter()).enumerate() {
+        if !(during_load && n == 0) {
+            edit(st.l());
+        }
         let mut asked = 0u128;
         if running {
             let _ = tx_rel.send(());
